@@ -61,7 +61,7 @@ func (formatter *typeFormatter) formatTypeDeclaration(def ast.Object) string {
 	case ast.KindEnum:
 		buffer.WriteString(formatter.enums.formatDeclaration(def))
 		buffer.WriteString("\n")
-	case ast.KindDisjunction, ast.KindMap, ast.KindArray, ast.KindRef:
+	case ast.KindDisjunction, ast.KindMap, ast.KindArray, ast.KindRef, ast.KindConstantRef:
 		buffer.WriteString(fmt.Sprintf("type %s = %s;\n", objectName, formatter.formatType(def.Type)))
 	case ast.KindScalar:
 		scalarType := def.Type.AsScalar()
